@@ -154,8 +154,21 @@ func runCLI(in []byte) (*reg.Result, error) {
 					}
 				}
 				_ = os.WriteFile(filepath.Join(ws, "buf.yaml"), []byte("version: v2\n"), 0o644)
-				gen := fmt.Sprintf("version: v2\nplugins:\n  - local: [%q, \"codegen-plugin\"]\n    out: out\n    opt:\n      - log=%s\n      - name=p1\n    strategy: %s\n    include_imports: %v\n    include_wkt: %v\n",
+				p1 := fmt.Sprintf("  - local: [%q, \"codegen-plugin\"]\n    out: out\n    opt:\n      - log=%s\n      - name=p1\n    strategy: %s\n    include_imports: %v\n    include_wkt: %v\n",
 					exe, logDir, c.Strategy, c.IncludeImports, c.IncludeWKT)
+				// a second plugin with a type filter of its own, before or after the observed one: it must not change
+				// what the observed plugin receives
+				first := c.Targets[0]
+				p2 := fmt.Sprintf("  - local: [%q, \"codegen-plugin\"]\n    out: out2\n    opt:\n      - log=%s\n      - name=p2\n    types:\n      - p%s.M%s\n", exe, logDir, first, first)
+				gen := "version: v2\nplugins:\n"
+				switch i % 3 {
+				case 0:
+					gen += p1
+				case 1:
+					gen += p2 + p1
+				case 2:
+					gen += p1 + p2
+				}
 				_ = os.WriteFile(filepath.Join(ws, "buf.gen.yaml"), []byte(gen), 0o644)
 				args := []string{"generate"}
 				if len(c.Targets) < 4 {
@@ -188,7 +201,7 @@ func runCLI(in []byte) (*reg.Result, error) {
 						continue
 					}
 					var r pluginRecord
-					if json.Unmarshal(b, &r) != nil {
+					if json.Unmarshal(b, &r) != nil || r.Name != "p1" {
 						continue
 					}
 					got = append(got, strings.Join(r.Generate, ",")+" | "+strings.Join(r.ProtoFile, ","))
@@ -231,7 +244,7 @@ func runCLI(in []byte) (*reg.Result, error) {
 				}
 				var created []string
 				for _, f := range after {
-					if !isBefore[f] {
+					if !isBefore[f] && !strings.HasPrefix(f, "out2/") {
 						created = append(created, f)
 					}
 				}
